@@ -234,6 +234,12 @@ func gen(g *core.G) {
 		}
 	}
 
+	// ---- (2') the recursion guard of aliases: one alias object meeting the same part twice ----------------------------
+	for _, gc := range lg.GuardCases(200 * g.Scale) {
+		g.Emit("desc " + s(gc.A) + " " + s(gc.B))
+		g.Emit("assert " + s(gc.A) + " " + gc.V.String())
+	}
+
 	// ---- (3) malformed stream (implementation only) ----------------------------------------------------------------
 	odd := []string{"(int 2 1)", "(var str)", "(struct (x f str))", "(obj 3)", "(enum t x41)", "(arr any 3 1)"}
 	for i := 0; i < 200; i++ {
